@@ -425,6 +425,8 @@ class P03(Plan):
         yield ChunkCase("2-cuts/connecting", cfg, "connecting", ("connack", "q1", "puback", "pubrec"), k_cuts(2))
         long_streams = [("q1_2b", "puback"), ("puback", "q1_2b", "q0_3b", "pubrec"), ("q2_3b", "rel", "suback"), ("q0_3b", "q1_2b", "pingresp"),
                         ("r128", "pingresp", "r256"), ("puback", "r16384", "q0"), ("r384", "r128"), ("pingresp", "r256", "pubrec", "r128")]
+        # a packet with a four-byte length field (2 MiB): every cut in and right after its header
+        yield ChunkCase("header-cuts/4-byte-length", cfg, "busy", ("q1_4b", "puback"), [[k] for k in range(1, 10)] + [[2, 4], [3, 5], [4, 5], [1, 2, 3, 4, 5]])
         if tier == "thorough":
             long_streams += [("puback", "q1_4b", "pubcomp"), ("q1_4b",)]
         # chunks that arrive at different times: a keepalive tick (60 s after CONNACK), the PINGRESP deadline, retry timers
@@ -623,9 +625,11 @@ def arg_table():
     """(op, args, kwargs, expect, label).  expect: 'reject' | 'accept' | 'either'."""
     T = []
     for n, exp in ((0, "reject"), (17, "reject"), (-1, "reject"), (100, "reject"), (1, "accept"), (16, "accept"), (8, "accept"),
-                   (None, "either"), ("3", "either")):
+                   (16.5, "reject"), (0.5, "reject"),               # outside 1..16 whatever the type
+                   (None, "reject"), ("3", "reject"), (b"3", "reject"), ([4], "reject")):      # ill-typed: refused, not coerced
         T.append(("setWindowSize", (n,), {}, exp, "window=%r" % (n,)))
-    for t, exp in ((0, "reject"), (1025, "reject"), (-5, "reject"), (1, "accept"), (1024, "accept"), (30, "accept"), (None, "either")):
+    for t, exp in ((0, "reject"), (1025, "reject"), (-5, "reject"), (1, "accept"), (1024, "accept"), (30, "accept"),
+                   (0.5, "reject"), (1024.5, "reject"), (None, "reject"), ("8", "reject"), (b"8", "reject")):
         T.append(("setTimeout", (t,), {}, exp, "timeout=%r" % (t,)))
     for bw, f, exp in ((0, 2, "reject"), (-1, 2, "reject"), (100, 0, "reject"), (100, -1, "reject"), (1, 1, "accept"), (1000000, 3, "accept"),
                        (0.5, 2, "accept")):
